@@ -2,18 +2,18 @@
 Driver for stream `tokens` (C05).  One op per line, one observation per line.
 
   case K                                              -> case K
-  init NOTARY NEOC GASC POLICYC C V ATTRFEE NOMINT GENESIS GASINIT STANDBY KEYACC MSIG
+  init NOTARY NEOC GASC POLICYC C V ATTRFEE NOMINT GENESIS GASINIT STANDBY KEYACC MSIG CONTRACTS
                                                       -> ok            state after block 0's OnPersist (natives initialised)
-       STANDBY k,k,..   KEYACC k:acc,..   MSIG acc:k:k:..,..|-
+       STANDBY k,k,..   KEYACC k:acc,..   MSIG acc:k:k:..,..|-   CONTRACTS acc:w|x|a,.. (wallet / no callback / accepts)
   block IDX                                           -> ok | ok cc    cc = CommitteeChanged is emitted
   onpersist PRIMARYINDEX NOTARIES NTX {SENDER SYS NET NKEYS|- PAYER|-}*     -> ok | ok uncovered | panic | bad-op
                                                       (uncovered: the hypothesis of onpersist_total fails on this block)
   tx SENDER SIGNERS                                   -> ok            SIGNERS acc:scopes[:allowed..][:r:±COND..],..
                                                       COND prefix notation, `.`-separated: T F N A O E S<id> C<id> G H
-  transfer neo|gas SRC DST AMT CALLER RECV DATA       -> .             RECV n|a|x|cb   DATA o | nt DTO|- TILL | pk PUB
+  transfer neo|gas SRC DST AMT CALLER DK DATA         -> .             DK n|c|o (data null / [hash,method,args] / other)   DATA o | nt DTO|- TILL | pk PUB
                                                                        CALLER = calling contract or - (entry script)
   vote ACC PUB|- CALLER | register PUB CALLER | unregister PUB CALLER | lock ACC TILL CALLER
-  withdraw SRC DST|- CALLER RECV | setgpb GAS CALLER | setregprice P CALLER
+  withdraw SRC DST|- CALLER | setgpb GAS CALLER | setregprice P CALLER
   blockacc ACC CALLER | unblockacc ACC CALLER | endcb                                 -> .
   endtx ABORT                                         -> HALT r1 r2 .. | FAULT
   postpersist                                         -> ok | panic
@@ -81,9 +81,17 @@ def parseBool (s : String) : Option Bool :=
 def parseTok (s : String) : Option Tok :=
   if s == "neo" then some .neo else if s == "gas" then some .gas else none
 
-def parseRecv (s : String) : Option Recv :=
-  if s == "n" then some .none else if s == "a" then some .accept
-  else if s == "x" then some .throws else if s == "cb" then some .cb else none
+def parseDk (s : String) : Option DataKind :=
+  if s == "n" then some .null else if s == "c" then some .call else if s == "o" then some .other else none
+
+def parseContract (s : String) : Option (Nat × CKind) :=
+  match s.splitOn ":" with
+  | [a, k] => do
+    let a ← a.toNat?
+    let k ← (if k == "w" then some CKind.wallet else if k == "x" then some CKind.noCallback
+      else if k == "a" then some CKind.accepts else none)
+    pure (a, k)
+  | _ => none
 
 def parseData : List String → Option Data
   | ["o"] => some .other
@@ -188,12 +196,12 @@ def parseOp : List String → Option Op
     pure (.onPersist p ns txs)
   | ["tx", s, sg] => do pure (.txBegin (← s.toNat?) (← parseList parseSigner sg))
   | "transfer" :: t :: src :: dst :: amt :: c :: recv :: data => do
-    pure (.transfer (← parseTok t) (← src.toNat?) (← dst.toNat?) (← amt.toInt?) (← optNat c) (← parseRecv recv) (← parseData data))
+    pure (.transfer (← parseTok t) (← src.toNat?) (← dst.toNat?) (← amt.toInt?) (← optNat c) (← parseDk recv) (← parseData data))
   | ["vote", a, p, c] => do pure (.vote (← a.toNat?) (← optNat p) (← optNat c))
   | ["register", p, c] => do pure (.register (← p.toNat?) (← optNat c))
   | ["unregister", p, c] => do pure (.unregister (← p.toNat?) (← optNat c))
   | ["lock", a, t, c] => do pure (.lock (← a.toNat?) (← t.toNat?) (← optNat c))
-  | ["withdraw", s, d, c, r] => do pure (.withdraw (← s.toNat?) (← optNat d) (← optNat c) (← parseRecv r))
+  | ["withdraw", s, d, c] => do pure (.withdraw (← s.toNat?) (← optNat d) (← optNat c))
   | ["setgpb", g, c] => do pure (.setGpb (← g.toInt?) (← optNat c))
   | ["setregprice", p, c] => do pure (.setRegPrice (← p.toInt?) (← optNat c))
   | ["blockacc", a, c] => do pure (.blockAcc (← a.toNat?) (← optNat c))
@@ -226,17 +234,17 @@ def output (s : St) (op : Op) (s' : St) : String :=
 def step (s : Option St) (ws : List String) : Option St × String :=
   match ws with
   | ["case", k] => (none, s!"case {k}")
-  | ["init", notary, neoC, gasC, policyC, c, v, fee, nm, g, gi, sb, ka, ms] =>
+  | ["init", notary, neoC, gasC, policyC, c, v, fee, nm, g, gi, sb, ka, ms, cts] =>
     match notary.toNat?, neoC.toNat?, gasC.toNat?, policyC.toNat?, c.toNat?, v.toNat?, fee.toInt?, parseNatList nm,
-        g.toNat?, gi.toInt?, parseNatList sb, parseList parsePair ka, parseList parseMsig ms with
+        g.toNat?, gi.toInt?, parseNatList sb, parseList parsePair ka, parseList parseMsig ms, parseList parseContract cts with
     | some notary, some neoC, some gasC, some policyC, some c, some v, some fee, some nm, some g, some gi, some sb,
-        some ka, some ms =>
+        some ka, some ms, some cts =>
       let e : Env := { notary := notary, neoC := neoC, csize := c, vcount := v, attrFee := fee, noMint := nm,
-                       standby := sb, keyAcc := ka, gasC := gasC, policyC := policyC, msig := ms }
+                       standby := sb, keyAcc := ka, gasC := gasC, policyC := policyC, msig := ms, contracts := cts }
       match genesis e g gi with
       | some l => (some (initSt e l), "ok")
       | none => (none, "panic")
-    | _, _, _, _, _, _, _, _, _, _, _, _, _ => (s, "bad-op")
+    | _, _, _, _, _, _, _, _, _, _, _, _, _, _ => (s, "bad-op")
   | ["endblock"] =>
     match s with
     | some st => (s, stateLine st.cur ++ govLine st.env st.cur)
